@@ -123,6 +123,26 @@ pub fn make_linked_list<'a>(vbar: bool, mut terms: Vec<Unifiable>) -> Unifiable 
 
 } // make_linked_list()
 
+/// Makes a Suiron list which holds exactly the given terms, in order.
+///
+/// Unlike [make_linked_list()](../s_linked_list/fn.make_linked_list.html),
+/// this function does not treat the last term specially: a term which is
+/// itself a list (or an empty list) becomes one element of the new list.
+///
+/// # Arguments
+/// * vector of unifiable terms
+/// # Return
+/// [SLinkedList](../unifiable/enum.Unifiable.html#variant.SLinkedList)
+pub fn make_list_of_terms(terms: Vec<Unifiable>) -> Unifiable {
+    let mut list = cons_node!(Nil, Nil, 0, false);
+    let mut count = 0;
+    for term in terms.into_iter().rev() {
+        count += 1;
+        list = cons_node!(term, list, count, false);
+    }
+    return list;
+} // make_list_of_terms()
+
 /// Compares two characters. Checks for backslash escapes: \\
 ///
 /// If the character indexed in the vector of characters is the same as
@@ -477,7 +497,7 @@ pub fn filter(filter: &Unifiable,
             } // match
         } // while
 
-        let new_list = make_linked_list(false, filtered_terms);
+        let new_list = make_list_of_terms(filtered_terms);
         return Some(new_list);
     }
     return None;
